@@ -385,7 +385,34 @@ def _lazy0(f):
     return g
 
 
+def r_unpack5(l):
+    l = _lst(l)
+    if len(l) != 3:
+        raise RefAny
+    for b in l:
+        if _isF(_num(b)) or int(b) not in (0, 1):
+            raise RefAny
+    v = int(l[0]) + 2 * int(l[1]) + 4 * int(l[2])
+    if v >= 5:
+        raise RefRaise
+    return v
+
+
+def r_ite_bits(c, a, b):
+    if not isinstance(c, RB):
+        raise RefAny
+    return r_tobits3(a) if int(c) else r_tobits3(b)
+
+
+def r_asfxp(a):
+    a = _num(a)
+    if isinstance(a, RB) or _isF(a):
+        raise RefAny
+    return Fraction(a, ONE)
+
+
 REF = {
+    "unpack5": r_unpack5, "ite_bits": r_ite_bits, "asfxp": r_asfxp,
     "lazy_lt0": _lazy0(lambda a, b: _cmp(_op.lt)(a, b)), "lazy_eq0": _lazy0(lambda a, b: _cmp(_op.eq)(a, b)),
     "lt_k": lambda a: _cmp(_op.lt)(a, 2) if not isinstance(_num(a), RB) else (_ for _ in ()).throw(RefAny()),
     "add_k": lambda a: r_add(a, 3), "assert_ge_k": r_assert_ge_k,
@@ -514,6 +541,11 @@ def _i_ign_on(a):
 
 
 IMPL = {
+    # bits that went through a selection (plain integer wires, no longer boolean-typed) and a 3-bit field unpacked from them;
+    # an integer secret re-interpreted as a fixed-point representation (the SAME wire under another type)
+    "unpack5": lambda l: __import__("pysnark.pack", fromlist=["x"]).PackIntMod(5).unpack(_list_of(l), 0),
+    "ite_bits": lambda c, a, b: list(H.branching.if_then_else(_scalar(c), _scalar(a).to_bits(3), _scalar(b).to_bits(3))),
+    "asfxp": lambda a: H.fixedpoint.LinCombFxp(_scalar(a), False),
     # lazily evaluated arm against a plain literal as the other arm
     "lazy_lt0": lambda c, a, b: H.branching.if_then_else(_scalar(c), lambda: _scalar(a) < _scalar(b), 0),
     "lazy_eq0": lambda c, a, b: H.branching.if_then_else(_scalar(c), lambda: _scalar(a) == _scalar(b), 0),
@@ -557,7 +589,7 @@ IMPL = {
     "bitlen_up": _i_bitlen_up,
 }
 
-ARITY = {"lazy_lt0": 3, "lazy_eq0": 3, "lt_k": 1, "add_k": 1, "assert_ge_k": 1, "lshift_s": 2, "rshift_s": 2, "lazy_loop": 5, "mixbits": 1, "ign_on": 1, "repack": 1, "add": 2, "sub": 2, "mul": 2, "neg": 1, "abs": 1, "lt": 2, "le": 2, "eq": 2, "ne": 2, "and": 2, "or": 2, "xor": 2, "not": 1,
+ARITY = {"unpack5": 1, "ite_bits": 3, "asfxp": 1, "lazy_lt0": 3, "lazy_eq0": 3, "lt_k": 1, "add_k": 1, "assert_ge_k": 1, "lshift_s": 2, "rshift_s": 2, "lazy_loop": 5, "mixbits": 1, "ign_on": 1, "repack": 1, "add": 2, "sub": 2, "mul": 2, "neg": 1, "abs": 1, "lt": 2, "le": 2, "eq": 2, "ne": 2, "and": 2, "or": 2, "xor": 2, "not": 1,
          "ite": 3, "floordiv": 2, "mod": 2, "mkarr": 3, "mkarr_k": 2, "get": 2, "set": 3, "arr_add": 2, "arr_sub": 2, "arr_scale": 2,
          "arr_adds": 2, "arr_ite": 3, "arr_assert_eq": 2, "lincomb": 4, "scalar_mul": 2, "vector_sub": 2, "tobits3": 1, "frombits": 1,
          "bit0": 1, "bit2": 1, "pack_bi": 2, "unpack_bi": 1, "packbool": 1, "assert_lt": 2, "assert_eq": 2, "assert_ne": 2,
@@ -575,6 +607,9 @@ for _f, _names in {
     for _n in _names:
         FEATURE[_n] = _f
 FEATURE["repack"] = "pack"
+FEATURE["unpack5"] = "pack"
+FEATURE["ite_bits"] = "select"
+FEATURE["asfxp"] = "retype"
 FEATURE["lazy_lt0"] = "lazy"
 FEATURE["lazy_eq0"] = "lazy"
 FEATURE["lt_k"] = "const"
@@ -835,6 +870,12 @@ def arg_ok(op, pos, t):
         return t == "L"
     if op == "lazy_loop":
         return t == "B" if pos == 0 else t == "I"
+    if op == "unpack5":
+        return t == "L"
+    if op == "ite_bits":
+        return t == "B" if pos == 0 else t == "I"
+    if op == "asfxp":
+        return t == "I"
     if op in ("lazy_lt0", "lazy_eq0"):
         return t == "B" if pos == 0 else t in SCALAR_T
     if op == "ite":
@@ -932,7 +973,7 @@ def _arg_choices(op, types, must_use):
 FIRST = [("mkarr", 0, 1, 0), ("mkarr", 3, 0, 1), ("mkarr", 3, 1, 3), ("mkarr", 2, 0, 2), ("mkarr_k", 0, 1), ("mkarr_k", 3, 3),
          ("lt", 0, 1), ("eq", 0, 1), ("lt", 3, 0), ("le", 0, 3), ("mul", 0, 1), ("mul", 3, 0), ("mul", 2, 0), ("mul", 3, 2),
          ("add", 0, 3), ("add", 2, 2), ("sub", 0, 1), ("tobits3", 0), ("ite", 2, 0, 1), ("ite", 2, 0, 3), ("not", 2),
-         ("floordiv", 0, 1), ("neg", 3), ("mixbits", 2), ("pack_bi", 2, 0), ("lshift_s", 0, 4), ("ign_on", 0), ("add_k", 0), ("lt_k", 3)]
+         ("floordiv", 0, 1), ("neg", 3), ("mixbits", 2), ("pack_bi", 2, 0), ("lshift_s", 0, 4), ("ign_on", 0), ("add_k", 0), ("lt_k", 3), ("ite_bits", 2, 0, 1), ("asfxp", 0)]
 
 
 THIRD_OPS = ["get", "set", "lazy_get", "ite", "lt", "frombits", "unpack_bi", "assert_eq", "add", "mul"]
@@ -964,7 +1005,7 @@ def enumerate_from(first, depth, next_ops, cross_only=True, third_ops=None):
 
 
 FIRST_OPS = ["mkarr", "mkarr_k", "lt", "eq", "mul", "add", "tobits3", "ite", "and", "not", "sub"]
-NEXT_OPS = ["lazy_lt0", "lazy_eq0", "lt_k", "add_k", "assert_ge_k", "lshift_s", "rshift_s", "lazy_loop", "ign_on", "get", "set", "arr_ite", "arr_scale", "arr_add", "lincomb", "scalar_mul", "ite", "lt", "eq", "mul", "add", "and", "not",
+NEXT_OPS = ["unpack5", "ite_bits", "asfxp", "lazy_lt0", "lazy_eq0", "lt_k", "add_k", "assert_ge_k", "lshift_s", "rshift_s", "lazy_loop", "ign_on", "get", "set", "arr_ite", "arr_scale", "arr_add", "lincomb", "scalar_mul", "ite", "lt", "eq", "mul", "add", "and", "not",
             "tobits3", "frombits", "bit0", "pack_bi", "unpack_bi", "packbool", "assert_lt", "assert_eq", "arr_assert_eq", "val",
             "lazy_floordiv", "lazy_get", "lazy_mul", "lazy_lt", "lazy_bits", "guard_add", "bitlen_up", "floordiv", "mod", "abs", "neg",
             "ne", "le", "or", "xor", "arr_sub", "arr_adds", "vector_sub", "bit2", "assert_ne", "assert_le"]
@@ -1233,7 +1274,7 @@ def programs(ctx, depth=None):
         depth = int(os.environ.get("VERIF_XFEAT_DEPTH", "2"))
     key = (depth, ctx.thorough)
     if key not in _PROGRAM_CACHE:
-        nops = len(NEXT_OPS) if ctx.thorough else 40
+        nops = len(NEXT_OPS) if ctx.thorough else 43
         res = common.pool_map(_gen_task, [(f, depth, nops) for f in FIRST], init=_init, initargs=(REC.BN128,), force_fork=True)
         _PROGRAM_CACHE[key] = [p for r in res for p in r]
     return _PROGRAM_CACHE[key]
@@ -1420,7 +1461,7 @@ def sound_replay(case):
 
 # ------------------------------------------------------------------------------------------------ declarations are enforced (C03 / C15 / C16)
 
-DECL_OPS = {"assert_ge_k": "C03", "assert_lt": "C03", "assert_eq": "C03", "assert_ne": "C03", "assert_le": "C03", "arr_assert_eq": "C03", "tobits3": "C16",
+DECL_OPS = {"unpack5": "C16", "assert_ge_k": "C03", "assert_lt": "C03", "assert_eq": "C03", "assert_ne": "C03", "assert_le": "C03", "arr_assert_eq": "C03", "tobits3": "C16",
             "pack_bi": "C16", "unpack_bi": "C16", "repack": "C16", "get": "C15", "set": "C15", "lazy_get": "C15", "lazy_bits": "C16"}
 
 
